@@ -1965,3 +1965,28 @@ Proof.
   - rewrite run_script_bind.
     destruct (run_script_leaves _ _ _ _ H) as [Hr _]; [discriminate|]. rewrite Hr. reflexivity.
 Qed.
+
+(* Every call of a sequence on one bus is that call's own program run on what the earlier calls left of the script: so
+   whatever is proved of a single call for EVERY script (the transfer shape of C09, the invariants of C11, the protocol
+   automaton of C10) holds of each call of any sequence. *)
+Lemma run_cops_script_each : forall cs script i c r,
+  nth_error cs i = Some c ->
+  nth_error (run_cops_script cs script) i = Some r ->
+  exists k, (k <= length script)%nat /\ run_script (cop_prog c) (skipn k script) = r.
+Proof.
+  induction cs as [|c0 cs IH]; intros script i c r Hc Hr; [destruct i; discriminate|].
+  cbn [run_cops_script] in Hr.
+  destruct (run_script (cop_prog c0) script) as [tr o] eqn:E.
+  destruct i as [|i].
+  - cbn [nth_error] in Hc, Hr. injection Hc as <-. injection Hr as <-.
+    exists 0%nat. split; [lia|]. cbn [skipn]. exact E.
+  - cbn [nth_error] in Hc, Hr.
+    assert (Hcont : nth_error (run_cops_script cs (skipn (length tr) script)) i = Some r
+                    /\ o <> Blocked).
+    { destruct o; try (split; [exact Hr|discriminate]); destruct i; discriminate. }
+    destruct Hcont as [Hr' Hnb].
+    destruct (IH _ _ _ _ Hc Hr') as (k & Hk & Hrun).
+    destruct (run_script_leaves _ _ _ _ E Hnb) as [_ Hlen].
+    exists (length tr + k)%nat. rewrite skipn_length in Hk. split; [lia|].
+    rewrite <- Hrun. f_equal. apply skipn_add.
+Qed.
